@@ -63,7 +63,7 @@ def work(run, part, parts):
     import warnings
     warnings.simplefilter("ignore")
     rng = run.rng(f"ser{part}")
-    n = (16000 if run.tier == "quick" else 160000) // parts
+    n = (16000 if run.tier == "quick" else 800000) // parts
 
     def class_defaults(c):
         return {k: getattr(c, k, None) for k in ("alg", "digits", "period", "issuer", "label", "min_json_version", "json_version", "wallet")}
